@@ -89,7 +89,8 @@ BITSY_STR = ["0b1", "0x", "", "0b", "0b0110", "0xabc", "0o17", "uint:8=300", "ui
              "0b1,,0b1", " 0 b 1 ", "0B1", "e4m3mxfp=1e9", "mxint=0.5", "sie=3", "uintle:12=1", "intbe:16=-40000"]
 FMTS = [0, 1, 3, 8, -1, 10 ** 6, "uint:8", "hex", "bin:3, uint:5", "ue", ">H", "<2hb", "3*(u4)", "", "foo", "uint:-1", "(((", "bits", "bytes:1", "float:32",
         "pad:3", "bool", "int:4, bits", "bits, int:4", "bits, bits", "ue, bits, ue", "hex:3", "oct:4", "float:24", "u7", "i1", "bin", "bytes", "2*bool",
-        "uint:n", "=d", "@i", "e5m2mxfp", "mxint", "bfloat", "0*u8", "1000*u1", ["u4", "bin:1"], [], "sie", "bits:0", "u0"]
+        "uint:n", "=d", "@i", "e5m2mxfp", "mxint", "bfloat", "0*u8", "1000*u1", ["u4", "bin:1"], [], "sie", "bits:0", "u0",
+        "pad:100", "u8, pad:9", "pad:1, pad:40", "pad:9", ["pad:17"], "bool, pad:64", "pad:7, pad:7, pad:7"]
 PP_FMTS = [None, "bin", "hex", "oct", "bytes", "bin, hex", "hex, bin", "oct:0", "hex:0", "bin:0", "bytes:0", "bin:3", "hex:12", "u8", "i4, hex:4", "float16",
            "foo", "bin, hex, oct", "ue", "bin:8, hex:4", "bits:4", "bool", ""]
 SEPS = [" ", "", "_", ", ", "<->"]
@@ -479,7 +480,7 @@ def gen(rng, tier):
                         if rng.random() < 0.4:
                             yield SEP.join(["C20", "byteswap", wire(bits), str(fmt), sv(s), sv(e), rng.choice("01")])
     targets = ["Bits", "BitArray", "ConstBitStream", "BitStream", "Array", "Dtype", "pack"]
-    for i in range(6000 if big else 700):
+    for i in range(6000 if big else 2500):
         t = targets[i % len(targets)]
         yield SEP.join(["C20", "fuzz", t, str(rng.randrange(10 ** 9)), str(rng.choice([5, 12, 25])), "1" if rng.random() < 0.35 else "0"])
 
